@@ -131,7 +131,8 @@ META = {
                    "order, indptr length / monotonicity / end, index ranges, no stored zeros (solver), and decodes the CSR and the CSC view: both are proved "
                    "equal to the table's matrix term by term -- for every start representation (explicit zeros, unsorted indices, CSR/CSC), after prior "
                    "histories (including an earlier write and a prior nnz read), for empty-axis and all-zero tables, and for tables that were themselves produced by a reader (from_json, parse_biom_table on JSON / TSV / HDF5, from_tsv, from_hdf5 -- what biom convert writes), optionally modified in place.",
-    'encoded': {'biom/table.py': ['to_hdf5', 'nnz', 'general_formatter', 'vlen_list_of_str_formatter', 'group_metadata', 'ids', 'metadata']},
+    'encoded': {'biom/table.py': ['to_hdf5', 'nnz', 'general_formatter', 'vlen_list_of_str_formatter', 'group_metadata', 'ids', 'metadata', 'from_json', 'from_tsv', 'from_hdf5'],
+                'biom/parse.py': ['parse_biom_table']},
     'bounds': {'quick': {'shapes': '2x2, 2x3 (<=1 explicit zero); 0xM, Nx0, 0x0, all-zero'}, 'thorough': {'shapes': 'up to 3x3, <=2 explicit zeros'}},
     'outside': ['on-disk HDF5 types as materialised by the real library, compression filters (the real h5py is only used in replays)',
                 'metadata VALUE fidelity (C01)'],
